@@ -104,6 +104,7 @@ func keepText(s string) bool { return len(s) == 0 || (int(s[len(s)-1])+len(s))%3
 func keepNum(v float64) bool  { return v >= 0 || math.Mod(math.Floor(-v), 2) == 0 }
 
 type c16Witness struct {
+	Gen     string `json:",omitempty"` // how a corpus too large to print is regenerated
 	Batches []*model.Batch
 	Query   *model.Q
 	Aggs    map[string]*aggSpec
@@ -596,7 +597,7 @@ func c16Corpus(c *vk.Ctx, i int) {
 }
 
 func runC16(c *vk.Ctx) {
-	c.Rule("generated corpora (single- and multi-valued keyword/numeric/date fields with missing values, several segments with pending deletions) x queries (term, match, prefix, term range, match-all) x aggregation trees (metrics, terms, numeric and date ranges, nested to depth 2, deliberately several aggregations per field) x 8 request variants (n=0..1000, from, sort by id/value/score, search-after, all-matches collector); " +
+	c.Rule("generated corpora (single- and multi-valued keyword/numeric/date fields with missing values, several segments with pending deletions; plus corpora of thousands of documents in ONE segment or a few large ones - several doc-value chunks per segment - with low-cardinality equal-length keyword values) x queries (term, match, prefix, term range, match-all) x aggregation trees (metrics, terms, numeric and date ranges, nested to depth 2, deliberately several aggregations per field) x 8 request variants (n=0..1000, from, sort by id/value/score, search-after, all-matches collector); " +
 		"every calculator compared with direct computation over the model's matched documents; distinct non-trivial = distinct (aggregation kinds, variant, multi-valued?) with a non-empty match set and no disagreement")
 	c.Assume("document values of a field are the distinct values of that field per document (generated multi-valued documents carry pairwise distinct values)",
 		"terms buckets: any correct top-size selection by count is accepted; 'other' is judged for single-valued fields only",
@@ -616,6 +617,7 @@ func runC16(c *vk.Ctx) {
 		}(w)
 	}
 	wg.Wait()
+	c16BigSegments(c)
 	for _, k := range []string{"count", "sum", "min", "max", "avg", "wavg", "card", "quant", "terms", "ranges", "dates"} {
 		c.Require("agg_"+k, 20)
 	}
